@@ -20,7 +20,7 @@ CASE_TYPE = 'case'
 CHECK = 'check_case'
 SHARD_SIZE = 150
 RULE = ('a generated module class (two class levels built with type(): 1-4 parameters over int/float/scaled/bool/enum/string/'
-        'fixed-length array/tuple/struct datatypes with readonly/constant/export(True, False, custom name) flags and optional '
+        'array/tuple/struct datatypes with readonly/constant/export(True, False, custom name) flags and optional '
         'write_<p> methods, Limit parameters <p>_min/_max/_limits on either class level, user check_<p> hooks on either level '
         '(never / always / value > self.<q>; raise RangeError / return True / raise ValueError), 0-2 commands with none/scalar/'
         'tuple/struct argument and optional result type) behind a real SecNode + Dispatcher; a history of 3-9 change/do requests '
@@ -34,10 +34,8 @@ RULE = ('a generated module class (two class levels built with type(): 1-4 param
         '(validation, limits, hooks or driver decided); distinct = distinct (module, requests).')
 ASSUMPTIONS = [
     'one module per node, requests are handled one at a time (Dispatcher._lock / accessLock not exercised), omit_unchanged_within = 0',
-    'datatypes restricted to int, float, scaled, bool, enum, string, array (fixed length at top level), tuple, struct; no blob',
-    'payloads avoid the input classes of the open C01 findings (scalar offered to array/tuple, non-mapping offered to struct, '
-    'string/fraction/non-finite offered to scaled, over-long list for a tuple, array longer than the cached one, None members); '
-    'on those the dispatcher answers InternalError or stores a reinterpreted value - this is C01, not re-listed here',
+    'datatypes restricted to int, float, scaled, bool, enum, string, array, tuple, struct (no blob); payloads are JSON kinds; '
+    'numbers offered to scaled types stay below 1e30 (representability guard of C01 validate_total)',
     'a parameter has either <p>_limits or <p>_min/<p>_max, never both (C18/limits-tuple-shadows-min-max, not re-listed); limit '
     'parameters only on int/float/scaled parameters',
     'check_<p> hooks and driver functions are user code: hooks are arbitrary functions of (value, cache) in the theorems and the '
@@ -775,33 +773,22 @@ def sanitize(j):
 
 
 def clean(d, j, wire=True):
-    """move a candidate out of the input classes of the open C01 findings (see ASSUMPTIONS)"""
+    """candidate -> JSON kinds (wire) / builtin kinds (driver read-back); numbers for scaled types kept below 1e30
+    (value/scale stays representable, see validate_guard of C01)"""
     t = d['t']
     j = sanitize(j) if wire else (None if isinstance(j, (G.Opaque, bytes)) else j)
-    if t in ('array', 'tuple'):
-        if not isinstance(j, (list, tuple)):
-            j = [j]
-        subs = [d['elem']] * len(j) if t == 'array' else d['elems']
-        j = list(j)[:len(subs)]
+    if t in ('array', 'tuple') and isinstance(j, (list, tuple)):
+        subs = [d['elem']] * len(j) if t == 'array' else list(d['elems']) + [d['elems'][-1]] * len(j)
         out = [clean(dd, x, wire) for dd, x in zip(subs, j)]
-        return out if wire else tuple(out)
-    if t == 'struct':
-        if j is None:
-            return None
-        if not isinstance(j, dict):
-            return {}
+        return out if wire or isinstance(j, list) else tuple(out)
+    if t == 'struct' and isinstance(j, dict):
         m = dict(d['members'])
-        return {k: (clean(m[k], x, wire) if k in m else sanitize(x)) for k, x in j.items() if x is not None}
+        return {k: (clean(m[k], x, wire) if k in m else sanitize(x)) for k, x in j.items()}
     if t == 'scaled':
-        if isinstance(j, (str, bytes)):
-            return None
-        if isinstance(j, float):
-            if j != j or math.isinf(j) or abs(j) > 1e30:
-                return None
-            return int(j) if wire else j
+        if isinstance(j, float) and j == j and abs(j) > 1e30:
+            return 1e30 if j > 0 else -1e30
         if isinstance(j, int) and not isinstance(j, bool) and abs(j) > 10 ** 30:
             return 10 ** 30 if j > 0 else -10 ** 30
-        return j
     return j
 
 
@@ -813,9 +800,6 @@ def fix_type(d, top=True):
         return dict(d, max=d['min'] + 12)
     if t == 'array':
         e = fix_type(d['elem'], False)
-        if top:
-            n = min(max(1, d['min']), 3)
-            return {'t': 'array', 'elem': e, 'min': n, 'max': n}
         return dict(d, elem=e)
     if t == 'tuple':
         return {'t': 'tuple', 'elems': [fix_type(x, False) for x in d['elems']]}
